@@ -366,10 +366,35 @@ def parseInit (tok : String) : Option Ui :=
     `build_table` reported), `Term<w>x<h>` (size of the terminal for the following redraws). -/
 inductive Tok where
   | ev (e : Event) | draw (k : Nat) | term (t : Term)
+  /-- `Fleet:<ac>;<ac>;…` — a redraw with these aircraft in `state_vectors`; the rows are computed by the
+      MODEL of the search filter (`displayed litMatch`) -/
+  | fleet (acs : List Aircraft)
   deriving Repr, Inhabited
 
+/-- the wall clock of the driver's `Fleet` steps (the hook sets `lastseen = now - age`) -/
+def driverNow : Nat := 1000000
+
+def parseOptText (s : String) : Option (List Char) := if s = "~" then none else some s.toList
+
+/-- `icao24/callsign/typecode/registration/name/count/age` -/
+def parseAircraft (s : String) : Option Aircraft :=
+  match s.splitOn "/" with
+  | [icao, cs, tc, reg, name, count, age] =>
+    count.toNat?.bind fun count =>
+    age.toInt?.bind fun age =>
+      if age.natAbs ≤ 100000 then
+        some { icao24 := icao.toList, callsign := parseOptText cs, typecode := parseOptText tc,
+               registration := parseOptText reg, names := [parseOptText name], count,
+               lastseen := ((driverNow : Int) - age).toNat }
+      else none
+  | _ => none
+
+def parseFleet (rest : String) : Option (List Aircraft) :=
+  ((rest.splitOn ";").filter (· ≠ "")).mapM parseAircraft
+
 def parseTok (tok : String) : Option Tok :=
-  if tok.startsWith "Draw" then
+  if tok.startsWith "Fleet:" then (parseFleet (tok.drop 6).toString).map Tok.fleet
+  else if tok.startsWith "Draw" then
     match (tok.drop 4).toString.splitOn ":" with
     | [m, k] => m.toNat?.bind fun _ => k.toNat?.map Tok.draw
     | _ => none
@@ -396,6 +421,13 @@ def traceToks (t : Term) : Ui → List Tok → List String
     | .err _ => ["err"]
     | .panic _ => ["panic"]
   | ui, .term t' :: rest => showUi ui :: traceToks t' ui rest
+  | ui, .fleet acs :: rest =>
+    match redrawF litMatch t driverNow acs ui with
+    | .ok ui' =>
+      let items := (displayed litMatch driverNow ui.query acs).map fun a => String.ofList a.icao24
+      s!"rows={items.length} items={",".intercalate items} {showUi ui'}" :: traceToks t ui' rest
+    | .err _ => ["err"]
+    | .panic _ => ["panic"]
 
 /-- states after each event, `panic` ends the trace -/
 def trace (guarded : Bool) : Ui → List Event → List String
